@@ -30,7 +30,7 @@ ASSUMPTIONS = ['oracle: the model re-implemented from its definition and differe
 MIN_REACH = {'fitting:jacobian': 1, 'fitting:lmfit_jacobian': 1, 'fitting:covar_errors': 1, 'fitting:errors': 1,
              'fitting:do_lmfit': 1}
 MIN_COUNTERS = {'contract_Cmatrix': 10, 'contract_Bmatrix': 5, 'contract_component_errors': 10, 'component_shape_errors_judged': 5, 'contract_jacobian': 50, 'contract_lmfit_jacobian': 50, 'contract_covar_errors': 50,
-                'sigma_entries_judged': 100, 'noise_model_selection_judged': 20, 'insitu_priorized_fits': 5, 'insitu_fits_seen': 20}
+                'sigma_entries_judged': 100, 'noise_model_selection_judged': 20, 'insitu_priorized_fits': 5, 'insitu_fits_seen': 20, 'priorized_rows_free_errors_judged': 5}
 
 _OBS = None
 _installed = False
@@ -39,6 +39,7 @@ NAMES = fisher.NAMES
 EVERY = 1           # in-situ thinning for large islands (set by other properties)
 
 
+_RTC_ERRS = {}          # id(source) -> (source, its err_* as they left result_to_components)
 _PENDING_FIT = False   # a fit was made (do_lmfit returned) and covar_errors has not been called since
 EXPECT_COV = None      # docov selected by the caller of the finder entry point currently running (None: not known)
 
@@ -450,12 +451,44 @@ def install():
         _PENDING_FIT = False
         out = orig_rtc(self, result, model, island_data, isflags)
         try:
+            for s_ in out:
+                _RTC_ERRS[id(s_)] = (s_, {k: getattr(s_, k, None) for k in ('err_ra', 'err_dec', 'err_a', 'err_b', 'err_pa', 'err_peak_flux')})
+            while len(_RTC_ERRS) > 5000:
+                _RTC_ERRS.pop(next(iter(_RTC_ERRS)))
+        except Exception:
+            pass
+        try:
             post_result_to_components(model, out, self)
         except Exception as e:          # a monitor fault must never change the subject's behaviour
             if _OBS is not None:
                 _OBS.count('contract_component_errors_monitor_fault')
         return out
     sfm.SourceFinder.result_to_components = result_to_components
+    orig_refit = sfm.SourceFinder._refit_islands
+
+    def _refit_islands(self, group, stage, *a, **kw):
+        out = orig_refit(self, group, stage, *a, **kw)
+        o = _OBS
+        if o is not None:
+            try:
+                # the errors of parameters that the stage FREES are the fit's own (as they left result_to_components), whatever
+                # is copied from the input catalogue afterwards for the parameters held fixed
+                free_cols = ['err_peak_flux'] + (['err_ra', 'err_dec'] if stage >= 2 else []) + (['err_a', 'err_b', 'err_pa'] if stage >= 3 else [])
+                for s_ in out:
+                    rec = _RTC_ERRS.get(id(s_))
+                    if rec is None or rec[0] is not s_:
+                        continue
+                    o.count('priorized_rows_free_errors_judged')
+                    bad = {c: [rec[1][c], getattr(s_, c)] for c in free_cols
+                           if not (rec[1][c] == getattr(s_, c) or (rec[1][c] != rec[1][c] and getattr(s_, c) != getattr(s_, c)))}
+                    if bad:
+                        o.violate('error_of_a_freed_parameter_replaced_after_the_fit', {
+                            'stage': stage, 'island': getattr(s_, 'island', None), 'source': getattr(s_, 'source', None),
+                            'fit_error_then_reported': bad})
+            except Exception:
+                o.count('contract_refit_monitor_fault')
+        return out
+    sfm.SourceFinder._refit_islands = _refit_islands
     orig_fit = sfm.do_lmfit
 
     def do_lmfit(*a, **kw):
